@@ -1,3 +1,4 @@
+import Chartparse.Proofs.ChartOrder
 import Chartparse.Proofs.EventsProofs
 import Chartparse.Proofs.C01Proofs
 import Chartparse.Proofs.Bridge
@@ -97,5 +98,10 @@ theorem C01_value_events :
     (l : List (Nat × Str)) (out : List ValEv) (h : buildValEvs res evs l = .ok out),
     out.map (fun e => (e.tick, e.value)) = l ∧ ∀ e ∈ out, tsAt res evs (e.tick : Int) 0 = .ok (e.ts, e.idx) :=
   @Chartparse.buildValEvs_spec
+
+theorem C01_from_file :
+    ∀ (text : Str) (want : Option (List (Nat × Nat))) (c : Chart) (h : parseChart text want = .ok c),
+    ∀ p ∈ timed c, ∃ g, tsAt c.res c.sync.bpms (p.1 : Int) 0 = .ok (p.2, g) :=
+  @Chartparse.text_timed_query
 
 end Chartparse.Props.C01
